@@ -406,7 +406,7 @@ theorem hok_step (L : Limits) (s : Svc) (op : Op) (ok : HeapOk s.heap) : HeapOk 
         · split
           · exact ok
           · exact heapPush_ok _ _ ok
-  | cancel id => simp only [step, cancel]; split <;> exact ok
+  | cancel id => simp only [step, cancel, cancelWith]; split <;> exact ok
   | collect now =>
     simp only [step, collect]
     split
